@@ -495,6 +495,30 @@ fn collect_leaves(v: &Val, names: &std::collections::HashMap<AtomId, String>, ar
     }
 }
 
+/// structural description of a type with field / variant names (mirrors the nesting of `val_summary`)
+pub fn type_shape<'tcx>(tcx: TyCtxt<'tcx>, t: ty::Ty<'tcx>, depth: u32) -> J {
+    if depth > 5 {
+        return J::s(format!("{:?}", t));
+    }
+    match t.kind() {
+        ty::Adt(adt, args) if adt.is_struct() => {
+            let fs: Vec<J> = adt.non_enum_variant().fields.iter().map(|f| J::Arr(vec![J::s(f.name.to_string()), type_shape(tcx, f.ty(tcx, args), depth + 1)])).collect();
+            jobj! {"struct" => J::s(tcx.def_path_str(adt.did())), "fields" => J::Arr(fs)}
+        }
+        ty::Adt(adt, args) if adt.is_enum() => {
+            let vs: Vec<J> = adt
+                .variants()
+                .iter()
+                .map(|v| J::Arr(vec![J::s(v.name.to_string()), J::Arr(v.fields.iter().map(|f| type_shape(tcx, f.ty(tcx, args), depth + 1)).collect())]))
+                .collect();
+            jobj! {"enum" => J::s(tcx.def_path_str(adt.did())), "variants" => J::Arr(vs)}
+        }
+        ty::Tuple(ts) => jobj! {"tuple" => J::Arr(ts.iter().map(|x| type_shape(tcx, x, depth + 1)).collect())},
+        ty::Array(et, _) => jobj! {"array" => type_shape(tcx, *et, depth + 1)},
+        _ => J::s(format!("{:?}", t)),
+    }
+}
+
 pub fn val_summary(v: &Val, depth: u32) -> J {
     match v {
         Val::Int(i) => {
@@ -652,6 +676,14 @@ pub fn run<'tcx>(tcx: TyCtxt<'tcx>) -> String {
             "root" => J::s(rn.names[ri].clone()),
             "result" => match &v { Some(v) => val_summary(v, 0), None => J::Null },
             "partitions" => J::arr_s(parts),
+            "ret_type" => {
+                // shape of the (last) root's return type with field names, so that result nodes can be addressed by name
+                let last = job.opts.get("then").and_then(|n| rn.find_root(n)).unwrap_or(ri);
+                let (inst, env) = rn.roots[last];
+                let sig = tcx.fn_sig(inst.def_id()).instantiate(tcx, inst.args).skip_norm_wip();
+                let rt = tcx.normalize_erasing_late_bound_regions(env, sig.output());
+                type_shape(tcx, rt, 0)
+            },
             "steps" => J::i((rn.ip.steps - steps0) as i128),
             "over_budget" => J::Bool(rn.ip.over_budget),
             "probes" => J::Arr(probes),
